@@ -10,9 +10,13 @@ from .props_zone import site_sig, CivilOracle, clamp
 from .props_fixed import spec_abbr, spec_name
 
 THEOREMS = {'C07': ['Cctz.C07.int_roundtrip', 'Cctz.C07.field2_roundtrip', 'Cctz.C07.offset_roundtrip', 'Cctz.C07.offset_24h_counterexample',
-                    'Cctz.C07.fraction_roundtrip', 'Cctz.C07.percent_s_roundtrip', 'Cctz.C07Whole.full_roundtrip'],
+                    'Cctz.C07.fraction_roundtrip', 'Cctz.C07.percent_s_roundtrip', 'Cctz.C07Whole.full_roundtrip',
+                    'Cctz.C07Class.class_roundtrip', 'Cctz.C07Class.class_roundtrip_ext', 'Cctz.C07Class.class_roundtrip_s', 'Cctz.C07Class.lossless_iff',
+                    'Cctz.C07Class.class_text', 'Cctz.C07Class.percent_s_drops_fraction', 'Cctz.C07Class.follow_needs_nondigit_after_leading_e',
+                    'Cctz.C07Class.offset_partial_group_does_not_leak'],
             'C08': ['Cctz.C08.constants', 'Cctz.C08.format64', 'Cctz.C08.format64_year4', 'Cctz.C08.format02d', 'Cctz.C08.formatOffset', 'Cctz.C08.literal',
-                    'Cctz.C08.percent', 'Cctz.C08.rfc3339', 'Cctz.C08.format_safe'],
+                    'Cctz.C08.percent', 'Cctz.C08.rfc3339', 'Cctz.C08.format_safe',
+                    'Cctz.C08Lex.toTM', 'Cctz.C08Lex.format_follows_spec', 'Cctz.C08Lex.format_ok'],
             'C09': ['Cctz.C09.constants', 'Cctz.C09.parseInt_spec', 'Cctz.C09.parseInt_counterexample', 'Cctz.C09.field_ranges', 'Cctz.C09.subseconds',
                     'Cctz.C09.offset', 'Cctz.C09.percent_s', 'Cctz.C09.parse_safe']}
 hx = Z.hx
@@ -223,7 +227,7 @@ def pick_fs(rng):
 # ---------------------------------------------------------------------------------- C08
 
 def run_C08(chk):
-    chk.prepare_model('Cctz.Properties.C08', THEOREMS['C08'])
+    chk.prepare_model(['Cctz.Properties.C08', 'Cctz.Properties.C08Lex'], THEOREMS['C08'])
     exe = chk.harness('san')
     scale = chk.tier if not (chk.broken or chk.degraded) else 'thorough'
     if exe is None or not getattr(chk, 'driver_ok', False):
@@ -300,7 +304,7 @@ def gen_lossless(rng, off_has_seconds):
 
 
 def run_C07(chk):
-    chk.prepare_model(['Cctz.Properties.C07', 'Cctz.Properties.C07Whole'], THEOREMS['C07'])
+    chk.prepare_model(['Cctz.Properties.C07', 'Cctz.Properties.C07Whole', 'Cctz.Properties.C07Class'], THEOREMS['C07'])
     exe = chk.harness('san')
     scale = chk.tier if not (chk.broken or chk.degraded) else 'thorough'
     if exe is None or not getattr(chk, 'driver_ok', False):
@@ -314,8 +318,13 @@ def run_C07(chk):
         for _ in range(per):
             t = pick_instant(rng); fs = pick_fs(rng)
             off = z.offset_at(t)[0]
-            if rng.random() < 0.1:
+            rr = rng.random()
+            if rr < 0.1:
                 toks = ['%s']; fs = 0
+            elif rr < 0.11:
+                toks = ['%s', '.', '%E*f']                      # every bit of the instant is in the text (finding F18)
+            elif rr < 0.12:
+                toks = ['%e', '%H', ':', '%M', ':', '%E*S', '%E*z', ' ', '%Y', '-', '%m']     # day first, directly followed by the hour (finding F19)
             else:
                 toks = gen_lossless(rng, off % 60 != 0)
                 y = C.civil_of_sec(t + off)[0]
@@ -346,6 +355,8 @@ def run_C07(chk):
                 sig = 'roundtrip'
                 off = z.offset_at(t)[0]
                 if abs(off) == 86400: sig = 'roundtrip offset of exactly 24h'
+                elif toks[:1] == ['%s'] and len(toks) > 1 and fs != 0 and o == 'ok %d 0' % t: sig = 'roundtrip %s with a fraction: fraction dropped'
+                elif toks[:2] == ['%e', '%H'] and text[:1] == b' ': sig = 'roundtrip leading %e before a digit field'
                 elif '%e' in toks and text.find(b'- ') >= 0: sig = 'roundtrip %e leading space'
                 chk.report('parse(%r, format(%r, t=%d, fs=%d, %s) = %r) = `%s`, expected the original instant `%s`' % (f, f, t, fs, z.name, text, o, want),
                            {'ops': ['fmt %s %d %d %s' % (z.zid, t, fs, hx(f)), l], 'zone': z.name, 'formatted': repr(text), 'implementation': o, 'expected': want}, sig=sig)
@@ -454,6 +465,17 @@ def run_C09(chk):
                 fmt, build = FIELD_FORMS[0]
                 text_b = build(fx).encode()[:-2] + b'60'
                 b.append('parse %s %s %s' % (zid, hx(fmt.encode()), hx(text_b))); m.append(('leap', tuple(fx), False, 0, fmt.encode(), text_b))
+        # an offset followed by literal text that starts with a digit: an incomplete (one-digit) minutes / seconds group
+        # belongs to the literal text and must not enter the offset (finding F17)
+        for form, otxt, offv, lit in ((b'%Ez', b'+05:30', 19800, b'7x'), (b'%Ez', b'-05:30', -19800, b'7x'), (b'%z', b'+05', 18000, b'5q'), (b'%z', b'+0530', 19800, b'9'),
+                                      (b'%:z', b'-11', -39600, b':4w'), (b'%E*z', b'+05:30', 19800, b':7'), (b'%E*z', b'+05:30:07', 19807, b'9y'), (b'%::z', b'-00:00', 0, b'5'),
+                                      (b'%E*z', b'+23', 82800, b'5'), (b'%z', b'-2359', -86340, b'5!')):
+            for _ in range(3):
+                fields = list(C.valid_fields(rng, year=rng.randrange(1, 9999)))
+                fmt, build = FIELD_FORMS[0]
+                fb = fmt.encode() + b' ' + form + lit
+                tb = build(fields).encode() + b' ' + otxt + lit
+                b.append('parse %s %s %s' % (zid, hx(fb), hx(tb))); m.append(('valid', tuple(fields), True, offv, fb, tb))
         # int64 limits and %s
         for sv in (I64MIN, I64MAX, I64MIN + 1, 0, -1):
             b.append('parse %s %s %s' % (zid, hx(b'%s'), hx(str(sv).encode()))); m.append(('percent-s', sv, False, 0, b'%s', str(sv).encode()))
